@@ -106,6 +106,7 @@ func genPlan(t *rapid.T, o genOpts) *world.Plan {
 				SpendChange: rapid.Bool().Draw(t, "spendchange"),
 				DecoySameAmt: rapid.IntRange(0, 3).Draw(t, "decoy") == 0,
 				DecoyLast:    rapid.Bool().Draw(t, "decoylast"),
+				NestedInput:  rapid.IntRange(0, 3).Draw(t, "nestedinput") == 0,
 			}
 		}
 	}
